@@ -66,4 +66,6 @@ package urltree
 //@   ensures[walk] 0 <= walkedParts && walkedParts <= len(splitURL) && forall(j, 0, walkedParts, stepTo(path[j], splitURL[j], path[j+1]))
 //@   ensures[stops-only-without-a-child] walkedParts < len(splitURL) ==> !litStep(path[walkedParts], splitURL[walkedParts]) && !parStep(path[walkedParts], splitURL[walkedParts])
 //@   ensures[own-node-included] walkedParts == len(splitURL) && path[walkedParts].Value != nil ==> len(result.found) > 0 && result.found[len(result.found) - 1] == *path[walkedParts].Value
-//@   ensures[own-node-only-when-the-whole-url-was-walked] forall(r, 0, len(result.found), exists(j, 0, walkedParts + 1, path[j].WildcardChild != nil && path[j].WildcardChild.Value != nil && result.found[r] == *path[j].WildcardChild.Value) || (walkedParts == len(splitURL) && path[walkedParts].Value != nil && result.found[r] == *path[walkedParts].Value))
+// (a wildcard pattern P/* covers URLs with at least one more segment than P; the one exception is a bare host, which
+// host/* covers - the wildcard child of the node the whole URL led to is returned only in that case)
+//@   ensures[own-node-only-when-the-whole-url-was-walked] forall(r, 0, len(result.found), exists(j, 0, walkedParts + 1, path[j].WildcardChild != nil && path[j].WildcardChild.Value != nil && result.found[r] == *path[j].WildcardChild.Value && (j < len(splitURL) || (len(splitURL) > 0 && splitURL[len(splitURL) - 1].IsPartOfHost))) || (walkedParts == len(splitURL) && path[walkedParts].Value != nil && result.found[r] == *path[walkedParts].Value))
